@@ -596,6 +596,13 @@ class PosPriorityQueue(Generic[T]):
         """
         Reschedule an object which is already in the queue.
         """
+        found = self._pq.find(key)
+        if found is None:
+            return None
+        pri, obj = found
+        if pri.priority_class == 0:
+            # positionally scheduled entries keep their place
+            return obj
         pv = PriorityValue(
             base_priority=new_priority,
             inserted_at=self.n_inserted,
